@@ -95,6 +95,52 @@ def comb_check(res, tier):
     return bad
 
 
+# C12, clause "a completed Task that is destroyed does nothing more" (~Task: `Valid() && !Ready()`, /repo 2690a63, D13): the pipe
+# harness consumes every started Task (Get / callback), so a Task that is completed and THEN destroyed by its owner exists only
+# where a coroutine awaits it with Await(task).  Those scenarios live in the C13 harness (harness/c13.cpp: cells t/T = coroutine
+# Task, k/K = Schedule()/Then Task, op `task:-:0` = Await only, the harness destroys the Task afterwards; monitors "~Task of a
+# completed Task wrote its state word", Cnt instance counts, leaks).  The six scenarios take milliseconds: always run.
+AWAITED_TASK_DESTROYED = [
+    'coro cells=t/exc/fib/0 execs=- n=1 c0=future;1;0;val:7;task:-:0',
+    'coro cells=t/val:9/fib/0 execs=- n=1 c0=task;1;0;val:7;task:-:0',
+    'coro cells=T/val:9/fib/0 execs=run n=1 c0=future;1;0;val:7;task:-:0,current:-:',
+    'coro cells=k/val:9/fib/0 execs=run n=1 c0=future;1;0;val:7;task:-:0',
+    'coro cells=K/val:9/fib/0 execs=run n=1 c0=future;1;0;val:7;task:-:0,current:-:',
+    'coro cells=K/val:9/fib/0 execs=run n=1 c0=shared;1;0;val:7;resched:1:,task:-:0',
+]
+
+
+def harness_stage(res, prop, tier, name, src, scenarios, args, what):
+    """run the schedule explorer harness `src` restricted to `scenarios`; every violation is a VIOLATION of `prop` whose replay
+    is the schedule (scenario + choices) of that harness"""
+    import re
+    binary = C.build_harness(name, 'fiber', [src])
+    tf = os.path.join(C.WORK, '%s_%s_%s_%d.txt' % (prop, tier, name, os.getpid()))
+    tot = {'scenarios': 0, 'executions': 0, 'violations': 0}
+    seen = set()
+    found = []
+    for scen in scenarios:
+        stats, _, violations = conc.run_harness(binary, args + ['--seed', str(C.seed()), '--only', scen, '--out', tf])
+        if not stats.get('scenarios') and stats.get('mode') != 'crashed':
+            raise C.BuildError('harness/%s no longer has the scenario `%s` that %s relies on' % (src, scen, prop))
+        for k in tot:
+            tot[k] += stats.get(k, 0)
+        for v in violations:
+            sc, msg = conc.violation_key(v)
+            short = re.sub(r'[^A-Za-z0-9]+', '_', msg)[:40]
+            if short in seen:
+                continue
+            seen.add(short)
+            found.append(msg)
+            res.violation('# harness: %s\n%s' % (src, v), '%s: %s [%s]' % (what, msg, sc), name='%s_%s_%s_%s.txt' % (prop, tier, name, short))
+    try:
+        os.remove(tf)
+    except OSError:
+        pass
+    res.coverage[name + '_stage'] = tot
+    return found
+
+
 def run(res, prop, tier):
     res.assumptions += [
         'single-threaded programs: the property quantifies over programs / inputs / fault (rejection) positions, not schedules; '
@@ -111,6 +157,10 @@ def run(res, prop, tier):
     prop_fail, corr_fail = pipe.check(res, prop, tier, nq, nt, twins=(prop == 'C12'), exhaustive_steps=2 if prop == 'C02' else 1)
     if prop == 'C20':
         prop_fail = list(prop_fail) + comb_check(res, tier)
+    if prop == 'C12':
+        prop_fail = list(prop_fail) + harness_stage(
+            res, prop, tier, 'c13', 'c13.cpp', AWAITED_TASK_DESTROYED, ['--mode', 'dfs', '--pb', '2', '--wb', '0'],
+            'a completed Task awaited by a coroutine and then destroyed')
     if broken and not prop_fail and not corr_fail:
         res.violation('\n'.join(broken), 'proof obligations of %s no longer check: %s' % (prop, broken[0]), no_input=True,
                       name='%s_%s_obligations.txt' % (prop, tier))
@@ -118,4 +168,8 @@ def run(res, prop, tier):
 
 
 def replay(prop, path):
+    m = [l for l in open(path) if l.startswith('# harness: ')]
+    if m:  # a schedule of another harness (harness_stage)
+        src = m[0][len('# harness: '):].strip()
+        return conc.replay(src[:-4].upper(), path, harness_src=src)
     return pipe.replay(prop, path)
